@@ -147,6 +147,9 @@ type c12Case struct {
 	Source dm.Tree    `json:"source"` // content for the entry node (edits) / replacement content
 	Entry  dm.Path    `json:"entry"`
 	Op     string     `json:"op"` // upsert | insert | update | delete | replace
+	// Into: the ...Into entry points: the full tree is the side being read (selection found at Entry), Source is what the
+	// node being written to holds before
+	Into bool `json:"into,omitempty"`
 	// FaultAt: 0 = enumerate every position (the normal mode); > 0 only that position (replay of a shrunk failure)
 	FaultAt int `json:"faultAt"`
 }
@@ -156,7 +159,11 @@ func c12Exec(c c12Case, mm *meta.Module, k int) (*recLog, error, string) {
 	root := c.Module.Root()
 	log := &recLog{faultAt: k}
 	store, _ := dm.NewStore("rs", root, c.Target)
-	tn := wrapRec(store.Node(), log, "target")
+	selSide, nodeSide := "target", "source"
+	if c.Into {
+		selSide, nodeSide = "source", "target"
+	}
+	tn := wrapRec(store.Node(), log, selSide)
 	var apiErr error
 	var panicTxt string
 	func() {
@@ -187,9 +194,20 @@ func c12Exec(c c12Case, mm *meta.Module, k int) (*recLog, error, string) {
 		mkSrc := func() node.Node {
 			if isList {
 				pn, _, _ := dm.ParentOf(root, c.Target, c.Entry)
-				return wrapRec(dm.NewRSList(pn, en, dm.CloneTree(c.Source)), log, "source")
+				return wrapRec(dm.NewRSList(pn, en, dm.CloneTree(c.Source)), log, nodeSide)
 			}
-			return wrapRec(dm.NewRS(en, dm.CloneTree(c.Source)), log, "source")
+			return wrapRec(dm.NewRS(en, dm.CloneTree(c.Source)), log, nodeSide)
+		}
+		switch {
+		case c.Op == "upsert" && c.Into:
+			apiErr = sel.UpsertInto(mkSrc())
+		case c.Op == "insert" && c.Into:
+			apiErr = sel.InsertInto(mkSrc())
+		case c.Op == "update" && c.Into:
+			apiErr = sel.UpdateInto(mkSrc())
+		}
+		if c.Into {
+			return
 		}
 		switch c.Op {
 		case "upsert":
@@ -336,7 +354,7 @@ func c12Run(c c12Case, o *hx.Obs) {
 	if _, _, ok := dm.Resolve(c.Module.Root(), c.Target, c.Entry); !ok {
 		return
 	}
-	o.Class("op=%s", c.Op)
+	o.Class("op=%s into=%v", c.Op, c.Into)
 	log0, err0, p0 := c12Exec(c, mm, 0)
 	if err0 != nil && strings.HasPrefix(err0.Error(), "harness:") {
 		return
@@ -421,12 +439,15 @@ func c12Gen(t *rapid.T) c12Case {
 		}
 		c.Source = st
 	}
+	if c.Op == "upsert" || c.Op == "insert" || c.Op == "update" {
+		c.Into = rapid.IntRange(0, 2).Draw(t, "into") == 0
+	}
 	return c
 }
 
 var c12Faults = hx.Register(&hx.Check[c12Case]{
 	Name: "c12-fault-enumeration",
-	Rule: "edit scenarios (upsert / insert / update / delete / replace x generated tree shapes x entry point root / container / list / list entry) with source and target wrapped by a recording node; the scenario is run fault-free (K callbacks) and then once for every k in 1..K with callback k (Child, Next, Field, Choose, BeginEdit or EndEdit on either side) returning a sentinel error - exhaustive per scenario; invariants over each recorded history: begin/end pairing with equal flags before the call returns, no begin/end on the source side, the API error wraps the sentinel, no write after the failing call; non-trivial = K >= 6",
+	Rule: "edit scenarios (upsert / insert / update in both directions (...From and ...Into) / delete / replace x generated tree shapes x entry point root / container / list / list entry) with source and target wrapped by a recording node; the scenario is run fault-free (K callbacks) and then once for every k in 1..K with callback k (Child, Next, Field, Choose, BeginEdit or EndEdit on either side) returning a sentinel error - exhaustive per scenario; invariants over each recorded history: begin/end pairing with equal flags before the call returns, no begin/end on the source side, the API error wraps the sentinel, no write after the failing call; non-trivial = K >= 6",
 	Gen:  c12Gen,
 	Run:  c12Run,
 })
